@@ -284,6 +284,51 @@ DIRECTED = {
   %x = "memref.load"(%m, %i) {my.checked = false} : (memref<4xf32>, index) -> f32
   "memref.store"(%v, %m, %i) {my.checked = false, other = 0 : i64} : (f32, memref<4xf32>, index) -> ()
 }) : () -> ()''',
+    "cf.switch with cases of different operand types": '''builtin.module {
+  func.func @mixed(%flag : i32, %a : i32, %b : i64, %c : f32) {
+    cf.switch %flag : i32, [
+      default: ^bb1(%a : i32),
+      1: ^bb2(%a, %a : i32, i32),
+      2: ^bb3,
+      3: ^bb4(%b, %c : i64, f32),
+      4: ^bb1(%a : i32)
+    ]
+  ^bb1(%0 : i32):
+    func.return
+  ^bb2(%1 : i32, %2 : i32):
+    func.return
+  ^bb3:
+    func.return
+  ^bb4(%3 : i64, %4 : f32):
+    func.return
+  }
+}''',
+    "llvm.call with calling convention and tail-call kind": '''builtin.module {
+  llvm.func @external_func(i32)
+  llvm.func @caller(%arg0 : i32) {
+    llvm.call tail @external_func(%arg0) : (i32) -> ()
+    llvm.call fastcc @external_func(%arg0) : (i32) -> ()
+    llvm.call fastcc tail @external_func(%arg0) : (i32) -> ()
+    llvm.call fastcc musttail @external_func(%arg0) : (i32) -> ()
+    llvm.return
+  }
+}''',
+    "scf.while and scf.if with results": '''builtin.module {
+  %c, %x = "test.op"() : () -> (i1, i32)
+  %r = scf.if %c -> (i32) {
+    scf.yield %x : i32
+  } else {
+    %y = arith.addi %x, %x : i32
+    scf.yield %y : i32
+  }
+  %w = scf.while (%a = %x) : (i32) -> i32 {
+    %cond = "test.op"(%a) : (i32) -> i1
+    scf.condition(%cond) %a : i32
+  } do {
+  ^bb0(%b : i32):
+    scf.yield %b : i32
+  }
+}''',
     "arith ops with attributes and fastmath": '''"builtin.module"() ({
   %a, %b = "test.op"() : () -> (f32, f32)
   %c = "arith.addf"(%a, %b) <{fastmath = #arith.fastmath<fast>}> {k = 1 : i8} : (f32, f32) -> f32
